@@ -103,14 +103,18 @@ def repeated_entry_cases(st, engine, fmt):
     """src/a.txt is reached by the glob entry (pattern 0) and by an explicit entry (pattern 1); another path lies
     between them in expansion order.  Fault: the occurrence of either entry's pattern is missing."""
     E = ENGINES[engine]
-    for fault_pat in (None, 0, 1):
+    for fault_pat in (None, 0, 1, "glob-files-gone"):
         for first in ("glob", "explicit"):
             for mode in ("dry", "real", "commit"):
                 lines_a = ["header a", E["occ"][0], E["occ"][1], "footer"]
-                if fault_pat is not None:
+                if fault_pat in (0, 1):
                     lines_a[1 + fault_pat] = "xxx=" + E["old"]
                 glob_entry = ("src/*.txt", [E["pats"][0]])
                 expl_entry = ("src/a.txt", [E["pats"][1]])
+                if fault_pat == "glob-files-gone":
+                    # the files a glob entry was configured for have all been removed (the entry then names a path that does not
+                    # exist - the code's own fallback, pinned by test_parse_v2_cfg); the explicit entry points elsewhere
+                    glob_entry = ("gone/*.txt", [E["pats"][0]])
                 other = ("other.txt", [E["pats"][0]])
                 entries = [glob_entry, other, expl_entry] if first == "glob" else [expl_entry, other, glob_entry]
                 files = {
@@ -146,7 +150,7 @@ def repeated_entry_cases(st, engine, fmt):
                 st.validated += 1
                 st.nontriv(case)
                 changed = sorted(k for k in set(files) | set(after) if files.get(k) != after.get(k))
-                tail = f"nomatch:repeated-entry:{mode}"
+                tail = f"nomatch:repeated-entry:{mode}" if fault_pat != "glob-files-gone" else f"missing:every-file-of-a-glob-entry:{mode}"
                 if o.exit == 0:
                     st.outcomes["violation"] += 1
                     st.violation(f"C06:faulted-update-exits-0:{tail}", case, {"log": o.log[-3:]})
